@@ -1,6 +1,7 @@
 package rt
 
 import (
+	"os"
 	"bytes"
 	"context"
 	"fmt"
@@ -106,6 +107,11 @@ func installPerturb(caseID string) func() {
 		}
 		local[site]++
 		omu.Unlock()
+		if strings.HasSuffix(site, ".held") && h%4 >= 2 {
+			// the goroutine holds a lock of the library here: if it slept, a goroutine waiting for that sync.Mutex (which is
+			// not a durable block) would stop the bubble's clock and the sleep would never end. Yield instead.
+			h = h&^3 | 1
+		}
 		if site == timerSite && h%4 < 2 {
 			h = h&^3 | 2 // always at least a nanosecond here, see timerSite
 		}
@@ -117,6 +123,9 @@ func installPerturb(caseID string) func() {
 		default:
 			atomic.AddInt64(&sleeps, 1)
 			d := time.Duration(1+(h>>8)%50000) * time.Nanosecond
+			if os.Getenv("VERIF_DEBUG_POINTS") != "" {
+				fmt.Printf("POINT %s %s sleeps %v at %v\n", caseID, site, d, time.Now().UnixNano()%1000000000)
+			}
 			sleepers.Add(1)
 			time.Sleep(d)
 			sleepers.Add(-1)
@@ -151,6 +160,8 @@ type CaseResult struct {
 	// MutexStuck: stacks of SUT goroutines of this case that sat in sync.Mutex.Lock when the watchdog fired
 	// (a goroutine waiting on a mutex is not durably blocked for synctest, so a self-deadlock shows up like this)
 	MutexStuck []string
+	// Others: the remaining goroutines of the case with a library frame, at the same moment (who holds what they wait for)
+	Others []string
 }
 
 // RunBubble runs f inside a fresh synctest bubble (virtual time, exact quiescence) on a goroutine
@@ -191,6 +202,8 @@ func RunBubble(t *testing.T, caseID string, watchdog time.Duration, f func()) Ca
 		for _, g := range GoroutinesOf(caseID, "github.com/dgrr/http2.") {
 			if strings.Contains(g, "sync.(*Mutex).Lock") || strings.Contains(g, "sync.(*RWMutex)") {
 				res.MutexStuck = append(res.MutexStuck, g)
+			} else {
+				res.Others = append(res.Others, g)
 			}
 		}
 		return res
